@@ -7,6 +7,15 @@
 //! correctness bug (saturating clamp + warn log), not a rounding artefact.
 
 mod local_drain;
+
+/// verif hook: number of times a gauge decrement was clamped at zero by the
+/// local drain (a gauge underflow signals an accounting bug); process-wide so
+/// the out-of-tree verification harness (`--cfg sozu_verif`) can read it from
+/// outside the worker thread. Never compiled into a normal build.
+#[cfg(sozu_verif)]
+pub static VERIF_GAUGE_UNDERFLOWS: std::sync::atomic::AtomicUsize =
+    std::sync::atomic::AtomicUsize::new(0);
+
 pub mod names;
 mod network_drain;
 mod writer;
